@@ -160,10 +160,19 @@ def _mk_cmp(op, l, r):
     flip = {"<": ">", ">": "<", "<=": ">=", ">=": "<="}
     if op in flip and intlit(l) and not intlit(r):
         op, l, r = flip[op], r, l
+    if op in ("==", "!=") and intlit(l) and not intlit(r):
+        l, r = r, l
     if op == ">" and intlit(r):
-        return ("op", ">=", [l, ("lit", str(int(r[1]) + 1))])
-    if op == "<=" and intlit(r):
-        return ("op", "<", [l, ("lit", str(int(r[1]) + 1))])
+        op, r = ">=", ("lit", str(int(r[1]) + 1))
+    elif op == "<=" and intlit(r):
+        op, r = "<", ("lit", str(int(r[1]) + 1))
+    if l[0] == "call" and l[1].endswith("::len") and len(l[2]) == 1 and intlit(r):
+        # emptiness, however it is asked:  len == 0, len < 1  /  len != 0, len >= 1
+        e = ("call", l[1][:-5] + "::is_empty", [l[2][0]])
+        if (op, r[1]) in (("==", "0"), ("<", "1")):
+            return e
+        if (op, r[1]) in (("!=", "0"), (">=", "1")):
+            return ("op", "Not", [e])
     return ("op", op, [l, r])
 
 
@@ -237,6 +246,11 @@ def _then_norm(c, v):
                 v = rewrite(v, sub)
                 continue
         i += 1
+    uniq = []
+    for x in parts:
+        if x not in uniq and x != ("lit", True):
+            uniq.append(x)
+    parts = uniq
     if not parts:
         return ("call", "Some", [v])
     c = parts[-1]
@@ -514,6 +528,8 @@ def _float(t, top=False):
             r = (k, [take(a) for a in n[1]])
         elif k == "struct":
             r = (k, n[1], n[2], {f: take(v) for f, v in n[3].items()})
+        elif k == "tpl":
+            r = (k, n[1], n[2], [take(a) for a in n[3]])          # interpolated expressions are evaluated before the tokens are built
         elif k in ("try", "elem", "ret"):
             inner = take(n[1])
             if k == "try" and inner[0] == "call" and inner[1] in ("Ok", "Some") and len(inner[2]) == 1:
@@ -1471,6 +1487,13 @@ class Norm:
         tree = self._opt_tuple_tree(scr, arms)
         if tree is not None:
             return tree
+        if len(arms) >= 2 and all(g is None for _p, g, _b in arms) and arms[-1][0] in ("_", "$") \
+                and all(re.fullmatch(r"'\d+'", p) for p, _g, _b in arms[:-1]):
+            # match n { 0 => a, 1 => b, _ => c }  ==  if n == 0 { a } else if n == 1 { b } else { c }
+            r = arms[-1][2]
+            for p, _g, b in reversed(arms[:-1]):
+                r = _mk_if(_mk_cmp("==", scr, ("lit", p.strip("'"))), b, r)
+            return r
         grouped = self._group_same_head(scr, arms)
         if grouped is not None:
             return self._canon_match(scr, grouped)
